@@ -9,34 +9,38 @@ VERIF = os.path.dirname(os.path.dirname(os.path.abspath(__file__)))
 BASELINE_OFF = ("cd /repo && GOFLAGS=-mod=mod GOPROXY=off GOSUMDB=off go test -json -vet=off -count=1 "
                 "-timeout 25m ./...")
 
-RAFT_NOTE = ("Trusted: TLC; the rsim scheduler (harness/raft) and its projection of the real raft objects; "
+RAFT_NOTE = ("xsim: for the constants of small MCRaft configurations (2-3 replicas) the real code is explored exhaustively "
+             "(every action MCRaft enables, in every reachable state, same budgets and state constraint; states re-created by "
+             "re-execution); TLC recomputes every transition with Raft.tla and evaluates the RaftSys.tla predicates on every "
+             "state with the history of its path, and the number of reachable states is compared with MCRaft's. "
+             "Trusted: TLC; the rsim scheduler (harness/raft) and its projection of the real raft objects; "
              "Ready is one atomic step here (C04 looks inside it); abstractions listed in the header of Raft.tla. "
              "Exhaustive results are for the small constants of the MC_*.cfg files; larger shapes are sampled.")
 
 CHECKS = {
     "C02": dict(
         category="model_checking", design_ref="5 C02",
-        technique="TLA+ spec (Raft.tla/RaftSys.tla) checked by TLC; trace validation of rsim executions of the real internal/raft (conformance + property monitor); replay of TLC counterexamples of guard-ablated specs",
+        technique="TLA+ spec (Raft.tla/RaftSys.tla) checked by TLC; trace validation of rsim executions of the real internal/raft (conformance + property monitor); scripted attack schedules; exhaustive exploration of the real code under MCRaft's transition system with every transition validated by TLC (xsim + RaftTree.tla; reachable state count equal to MCRaft's)",
         text="Replica agreement predicates (CommittedAgree, LogMatching, ApplyAgreement, ApplyOrder, Monotonic) are TLC-checked on the exhaustive model and evaluated by TLC on every observed state of thousands of seeded schedules of the real raft code (loss, duplication, reordering, partitions, crash/restart, membership change, snapshot, compaction, transfer); each real step is also checked to be a step of Raft.tla.",
         note=RAFT_NOTE),
     "C03": dict(
         category="model_checking", design_ref="5 C03",
-        technique="TLA+ spec checked by TLC; trace validation of rsim executions (conformance + monitor); attack replay",
+        technique="TLA+ spec checked by TLC; trace validation of rsim executions (conformance + monitor); scripted attack schedules; exhaustive exploration of the real code under MCRaft's transition system with every transition validated by TLC (xsim + RaftTree.tla; reachable state count equal to MCRaft's)",
         text="ElectionSafety, LeaderCompleteness, OneVotePerTerm (across restarts, from durable votes), ElectionQuorum (from delivered vote responses) checked by TLC on the model and on observed states of the real code, with and without PreVote/CheckQuorum, sizes 1..5, witnesses/non-voting members, membership changes, transfers, crash/restart. Second engine (nhsim pipe scenarios, real NodeHosts incl. node.replayLog, engine, Pebble / Tan, power loss at seeded file-system operations, flapping hosts): TLC (NodeSafetyTrace) reads the votes off the messages that reach the transport and the leaders off the RaftEventListener and requires one vote per replica and term across restarts and one leader per term.",
         note=RAFT_NOTE),
     "C06": dict(
         category="model_checking", design_ref="5 C06",
-        technique="TLA+ spec checked by TLC; trace validation of rsim executions (conformance + monitor); attack replay",
+        technique="TLA+ spec checked by TLC; trace validation of rsim executions (conformance + monitor); scripted attack schedules; exhaustive exploration of the real code under MCRaft's transition system with every transition validated by TLC (xsim + RaftTree.tla; reachable state count equal to MCRaft's)",
         text="ReadIndexSafe (released index >= global durable commit at issue time), ReadIndexMechanism (accepted only with a current-term commit; released only on a hinted heartbeat response confirmed by a quorum of voting members, counted from delivered messages) evaluated by TLC on the model and on every observed state of the real code.",
         note=RAFT_NOTE),
     "C07": dict(
         category="model_checking", design_ref="5 C07",
-        technique="TLA+ spec checked by TLC; trace validation of rsim executions; model replay of Membership.tla state graph on the real rsm membership object",
+        technique="TLA+ spec checked by TLC; trace validation of rsim executions (conformance + monitor); exhaustive exploration of the real code under MCRaft's transition system with every transition validated by TLC (xsim + RaftTree.tla; reachable state count equal to MCRaft's); RSM.tla rule table evaluated by TLC on seeded sequences applied to the real rsm membership object and on membership requests made on real NodeHosts",
         text="One config change at a time, membership agreement at equal applied index, removed-never-readmitted, kind only by promotion, plus C02/C03 predicates across membership changes, on the model and on observed executions; the accept/reject rule table is replayed transition by transition on the real membership code. Third engine (nhsim member scenarios on real NodeHosts): seeded sequences of AddReplica / AddNonVoting / promotion / DeleteReplica and of requests that must be refused (re-admitting a removed replica, demoting a voter, address in use, stale ConfigChangeIndex under OrderedConfigChange, promotion with another address) through the public API while clients write; TLC (MemberTrace over RSM.tla CCAccept / CCDo) judges every outcome and requires every membership reported by any running host to be the rule table's.",
         note=RAFT_NOTE),
     "C18": dict(
         category="model_checking", design_ref="5 C18",
-        technique="TLA+ spec checked by TLC; trace validation of rsim executions (conformance + monitor); attack replay",
+        technique="TLA+ spec checked by TLC; trace validation of rsim executions (conformance + monitor); scripted attack schedules; exhaustive exploration of the real code under MCRaft's transition system with every transition validated by TLC (xsim + RaftTree.tla; reachable state count equal to MCRaft's)",
         text="OnlyVotersLead, role stability of non-voting/witness replicas, election/commit/read quorums counted from delivered messages over voters+witnesses only, witnesses receive metadata only: TLC on the model and on observed states of the real code for all cluster shapes reachable by membership changes.",
         note=RAFT_NOTE),
 }
